@@ -109,3 +109,14 @@ Fixpoint krun (c : kcfg) (st : kstate) (es : list kevent) : kstate * list (list 
 
 (* NewKauri: nothing aggregated, view 0, zero hash (interned 0) *)
 Definition kinit : kstate := mkKS None false 0%N 0%N [].
+
+(* block availability over time: every stimulus comes with the hashes for which blockchain.Get succeeds at that
+   moment (held locally, or fetchable from another replica just then) *)
+Definition with_blocks (c : kcfg) (bl : list hash) : kcfg :=
+  mkKC (kc_members c) (kc_subtree c) (kc_leaf c) bl (kc_bls c).
+Fixpoint krun_av (c : kcfg) (st : kstate) (es : list (list hash * kevent)) : kstate * list (list kout) :=
+  match es with
+  | [] => (st, [])
+  | (bl, e) :: r => let '(st1, o) := kstep (with_blocks c bl) st e in
+                    let '(st2, os) := krun_av c st1 r in (st2, o :: os)
+  end.
